@@ -14,7 +14,7 @@ from typing import (
 
 from ..._utils import OrderedDict, deduplicate, flatten
 from ...exc import UnknownType
-from ...lang import ast as _ast
+from ...lang import ast as _ast, print_ast
 from ...schema import (
     Field,
     GraphQLCompositeType,
@@ -634,12 +634,25 @@ def _same_arguments(
         (
             (
                 a1.name.value == a2.name.value
-                and type(a1.value) == type(a2.value)  # noqa: E721
-                and a1.value.value == a2.value.value  # type: ignore
+                and _same_value(a1.value, a2.value)
             )
             for a1, a2 in zip(s1, s2)
         )
     )
+
+
+def _same_value(value_1: _ast.Value, value_2: _ast.Value) -> bool:
+    if type(value_1) != type(value_2):  # noqa: E721
+        return False
+
+    # Lists, objects, null and variables do not expose a `value` attribute.
+    if isinstance(
+        value_1,
+        (_ast.ListValue, _ast.ObjectValue, _ast.NullValue, _ast.Variable),
+    ):
+        return print_ast(value_1) == print_ast(value_2)
+
+    return bool(value_1.value == value_2.value)  # type: ignore
 
 
 def _types_conflict(type_1: GraphQLType, type_2: GraphQLType) -> bool:
